@@ -438,9 +438,54 @@ impl<const N: usize> Exec<N> {
             }
         };
         // 2. observe — fully, or (swarm knob `sweep_every`) keys only between every k-th operation
-        let g = self.gs[i].as_ref().unwrap();
         let k = self.view.cfg.sweep_every;
         let full = k <= 1 || self.view.insts[i].as_ref().unwrap().age % (k as u64) == 0;
+        // (not on kept slices: their groups are left open by C13, the model cannot predict their collections)
+        if self.view.cfg.blind && !full && !matches!(op, Op::NextId) && !self.view.insts[i].as_ref().unwrap().m.adoptive {
+            // blind stretch: not even keys()/len() is asked between the calls (a query may repair
+            // or refresh hidden state of the code under test and so hide what a caller who does not
+            // look would meet). The model takes the step alone; the next full observation is held
+            // against it.
+            let mut ret = ret;
+            let inst = self.view.insts[i].as_mut().unwrap();
+            inst.oplog.push(LogOp {
+                op: op.clone(),
+                add_present: matches!(op, Op::Add(v) if inst.m.is_present(*v)),
+            });
+            let m = &mut inst.m;
+            match op {
+                Op::Add(v) => {
+                    if m.is_present(*v) || m.collected_ever.contains(v) {
+                        inst.readd_seen = true;
+                    }
+                    m.add(*v);
+                }
+                Op::Bind(a, b, l) => m.bind(*a, *b, l),
+                Op::Put(v, d) | Op::PutRaw(v, d, _) => m.put(*v, d),
+                Op::Data(v) => {
+                    let out = m.data(*v);
+                    if let OpRet::Data(val, rem, _) = &mut ret {
+                        *rem = out.removed.clone();
+                        if *val != out.value && soft.is_none() {
+                            *soft = fail::<()>(
+                                "data.wrong-value",
+                                clauses::C03,
+                                format!("data(ν{v}) returned {val:?}, last put was {:?}", out.value),
+                            )
+                            .err();
+                        }
+                    }
+                }
+                Op::NextId => unreachable!(),
+            }
+            let keys = m.keys();
+            inst.last_obs = crate::obs::Obs { len: keys.len(), is_empty: keys.is_empty(), keys, verts: Vec::new(), debug: String::new(), deep: false };
+            inst.version += 1;
+            inst.age += 1;
+            self.stats.bump("probe.blind_step");
+            return Ok(ret);
+        }
+        let g = self.gs[i].as_ref().unwrap();
         let obs = match if full { observe(g, &probes, false) } else { observe_keys(g) } {
             Ok(o) => o,
             Err(c) => {
@@ -750,6 +795,10 @@ impl<const N: usize> Exec<N> {
                 continue;
             }
             let reduced = self.view.cfg.sweep_every > 1 && self.view.steps_done % self.view.cfg.sweep_every != 0;
+            if reduced && self.view.cfg.blind {
+                // blind stretch: the other graphs are not asked either
+                continue;
+            }
             let obs = match if reduced { observe_keys(g) } else { observe(g, &probes, false) } {
                 Ok(o) => o,
                 Err(c) => return fail("query.panic", clauses::PANIC_Q, format!("{c:?}")),
